@@ -85,10 +85,17 @@ type monC13 struct {
 }
 
 func (m *monC13) After(td *TD, ev *ActEvent) *Viol {
-	if ev.Err == nil {
+	if ev.Kind == "finish" {
 		return nil
 	}
-	if ev.Kind == "finish" {
+	if ev.Err == nil {
+		// "the caller gets the error": the backend call made for this action (the first call after the submission;
+		// later ones belong to the engine's own steps) failed, yet the player's call returned nil
+		if len(td.be.calls) > ev.BeforeCalls {
+			if c := td.be.calls[ev.BeforeCalls]; c.Err == errInjected.Error() && playerCallKinds[c.Kind] {
+				return &Viol{Key: "error-not-passed-on@" + c.Kind, Detail: fmt.Sprintf("backend call %s made for %s's %s failed with %q, the caller received nil", c.Kind, ev.ID, ev.Action, errInjected)}
+			}
+		}
 		return nil
 	}
 	// the refusal must be the injected failure of a player-action call and leave no trace
